@@ -11,13 +11,95 @@ the case's launch environment, and
   held  = the environment names (with their variable names) FlowIRConcrete holds per platform after FlowIR.from_dict
 are returned (exceptions as their class name).
 A case {'subst': {'m': [[k, v]...], 's': text}} instead returns flowir.expand_vars(text, m) (string.Template.safe_substitute)
-and os.path.expandvars(text) under os.environ = m."""
+and os.path.expandvars(text) under os.environ = m.
+A case {'session': {...}} is a SEQUENCE of questions put to ONE FlowIRConcrete built from a three-platform document with global
+variables (see harness/c17_session.py): instance()/replicate() for a platform ([environments][default] of the result),
+get_environment(name, platform) and a FlowIRExperimentConfiguration built on the object for a platform (primitive or
+not; environmentForNode of a component and environmentWithName(name, expand=False)).  Every question is also put to a
+FRESH object built from the same document, and the configuration questions to a fresh object built from the document
+WITHOUT the environments of any other name."""
 import json
 import logging
 import os
 import sys
 
 logging.disable(logging.CRITICAL)
+
+
+def session_doc(s, only=None):
+    envs = {plat: {n: {k: v for k, v in kv} for n, kv in tab if only is None or n.lower() == only}
+            for plat, tab in s['envs'].items()}
+    variables = {plat: {'global': {k: v for k, v in kvs}} for plat, kvs in s['globals'].items()}
+    comps = []
+    for i, cm in enumerate(s['comps']):
+        cmd = {'executable': 'echo'}
+        if cm['name'] is not None:
+            cmd['environment'] = cm['name']
+        if cm['interp']:
+            cmd['interpreter'] = 'bash'
+        comps.append({'name': 'c%d' % i, 'stage': 0, 'command': cmd})
+    return {'environments': envs, 'variables': variables, 'platforms': list(s['platforms']), 'components': comps}
+
+
+def canon_env(env):
+    if not all(isinstance(k, str) and isinstance(v, str) for k, v in env.items()):
+        return 'NONSTRING: %r' % (env,)
+    return [[k, v] for k, v in env.items()]
+
+
+def session_op(F, C, conc, op, s):
+    """one question; the answer is JSON (exceptions as their class name)"""
+    kind = op['op']
+    try:
+        if kind in ('instance', 'replicate'):
+            if kind == 'instance':
+                doc = conc.instance(platform=op['platform'], ignore_errors=True, is_primitive=bool(op.get('primitive')))
+            else:
+                doc = conc.replicate(platform=op['platform'], ignore_errors=True)
+            envs = doc['environments']
+            if sorted(envs) != ['default']:
+                return 'PLATFORMS: %r' % (sorted(envs),)
+            return [[n, [[k, v] for k, v in e.items()]] for n, e in envs['default'].items()]
+        if kind == 'get':
+            if op['explicit']:
+                return canon_env(conc.get_environment(op['name'], platform=op['platform']))
+            conc.configure_platform(op['platform'])
+            return canon_env(conc.get_environment(op['name']))
+        if kind == 'node':
+            conc.configure_platform(op['platform'])
+            conf = C.FlowIRExperimentConfiguration(
+                concrete=conc, path=None, is_instance=False, primitive=not op['nonprim'], manifest={},
+                createInstanceFiles=False, updateInstanceFiles=False, variable_substitute=True,
+                platform=op['platform'], variable_files=None, system_vars={k: v for k, v in s['sysv']},
+                config_patches=None, validate=False)
+            cm = s['comps'][op['comp']]
+            r = {}
+            try:
+                r['full'] = canon_env(conf.environmentForNode('stage0.c%d' % op['comp']))
+            except Exception as e:  # noqa
+                r['full'] = type(e).__name__
+            try:
+                r['unexp'] = canon_env(conf.environmentWithName(cm['name'], expand=False))
+            except Exception as e:  # noqa
+                r['unexp'] = type(e).__name__
+            return r
+        return 'BADOP'
+    except Exception as e:  # noqa
+        return type(e).__name__
+
+
+def run_session(F, C, s):
+    first = s['ops'][0]['platform'] if s['ops'] else 'default'
+    shared = F.FlowIRConcrete(session_doc(s), first, {})
+    out = []
+    for op in s['ops']:
+        r = {'ans': session_op(F, C, shared, op, s)}
+        r['fresh'] = session_op(F, C, F.FlowIRConcrete(session_doc(s), op['platform'], {}), op, s)
+        if op['op'] == 'node':
+            nm = (s['comps'][op['comp']]['name'] or 'environment').lower()
+            r['iso'] = session_op(F, C, F.FlowIRConcrete(session_doc(s, only=nm), op['platform'], {}), op, s)
+        out.append(r)
+    return out
 
 
 def main():
@@ -40,6 +122,22 @@ def main():
             finally:
                 os.environ.clear()
                 os.environ.update(keep)
+            continue
+        if 'session' in c:
+            s = c['session']
+            os.environ.clear()
+            os.environ.update({k: v for k, v in s['launch']})
+            try:
+                try:
+                    r = {'ops': run_session(F, C, s)}
+                except Exception as e:  # noqa
+                    r = {'build': type(e).__name__ + ': ' + str(e)[:300]}
+                if list(os.environ.items()) != [(k, v) for k, v in s['launch']]:
+                    r['launch_modified'] = dict(os.environ)
+            finally:
+                os.environ.clear()
+                os.environ.update(keep)
+            out.append(r)
             continue
         envs = {plat: {n: {k: v for k, v in kv} for n, kv in tab} for plat, tab in c['envs'].items()}
         cmd = {'executable': 'echo'}
